@@ -1,5 +1,16 @@
-import H2.Base
-/-! Line-protocol operations of the Frame area (driver side). -/
+import H2.Frame.Model
+import H2.Frame.Spec
+import H2.Frame.Write
+import H2.Pool
+/-! Line-protocol operations of the Frame area (driver side).
+
+```
+frame.parse max=<n> <hex>   → <readFrame result> consumed=<n> pool=<counts> anom=<list> :: spec=<Spec.parse result>
+frame.reuse max=<n> <hex>   → reuse=<0|1>
+frame.spec max=<n> <hex>    → <Spec.parse result> sendwf=<0|1>
+frame.write <TYPE> s=<n> fl=<n> pad=<n> k=v …  → ok <hex> :: want=<canonical frame>
+```
+-/
 namespace H2.Frame.Drv
 
 structure State where
@@ -7,7 +18,110 @@ structure State where
 
 def State.init : State := {}
 
+def b01 (b : Bool) : String := if b then "1" else "0"
+
+def showSettings (s : SettingsVal) : String :=
+  s!"SETTINGS ack={b01 s.ack} ts={s.tableSize} push={b01 s.enablePush} mcs={s.maxStreams} ws={s.windowSize} fs={s.frameSize} hs={s.headerSize}"
+
+def showBody : Body → String
+  | .data es d => s!"DATA es={b01 es} data={hexOrDash d}"
+  | .headers es eh prio frag =>
+    let p := match prio with | some (d, w) => s!"{d}/{w}" | none => "-"
+    s!"HEADERS es={b01 es} eh={b01 eh} prio={p} frag={hexOrDash frag}"
+  | .priority dep w => s!"PRIORITY dep={dep} w={w}"
+  | .rstStream c => s!"RST_STREAM code={c}"
+  | .settings s => showSettings s
+  | .pushPromise pr eh frag => s!"PUSH_PROMISE promised={pr} eh={b01 eh} frag={hexOrDash frag}"
+  | .ping ack d => s!"PING ack={b01 ack} data={hexOrDash d}"
+  | .goAway last code dbg => s!"GOAWAY last={last} code={code} debug={hexOrDash dbg}"
+  | .windowUpdate inc => s!"WINDOW_UPDATE inc={inc}"
+  | .continuation eh frag => s!"CONTINUATION eh={b01 eh} frag={hexOrDash frag}"
+
+def showFrame (f : Frame) : String :=
+  s!"{showBody f.body} s={f.stream} fl={f.flags} len={f.length}"
+
+def showErr : ErrKind → String
+  | .io => "io"
+  | .tooLarge => "too-large"
+  | .goAway c => s!"goaway:{c}"
+  | .other c => s!"stream:{c}"
+  | .plain => "plain"
+
+def showRead : ReadRes → String
+  | .ok f c => s!"ok {showFrame f} consumed={c}"
+  | .unknownType _ c => s!"unknown consumed={c}"
+  | .err k c => s!"err {showErr k} consumed={c}"
+
+def showSpec : Spec.Res → String
+  | .incomplete => "incomplete"
+  | .frame f rest => s!"frame {showFrame f} rest={rest.length}"
+  | .ignored t l rest => s!"ignored t={t} len={l} rest={rest.length}"
+  | .malformed c => s!"malformed code={c}"
+
+def showPool (p : Pool.Path) : String :=
+  let evs := Pool.pathEvents p
+  let c := Pool.count evs
+  let t := Pool.check evs
+  let late := (Pool.check (evs ++ Pool.callerRelease p)).anomalies.drop t.anomalies.length
+  let an := t.anomalies ++ late.map ("late:" ++ ·)
+  s!"pool={c (.acquire .fh)}.{c (.acquire .body)}.{c (.release .fh)}.{c (.release .body)} anom={if an.isEmpty then "-" else ",".intercalate an}"
+
+def kv (args : List String) (k : String) : Option String :=
+  args.findSome? fun a => if a.startsWith (k ++ "=") then some ((a.drop (k.length + 1)).toString) else none
+
+def kvNat (args : List String) (k : String) : Nat := ((kv args k).bind String.toNat?).getD 0
+def kvHex (args : List String) (k : String) : Bytes := ((kv args k).bind fromHex).getD []
+def kvBool (args : List String) (k : String) : Bool := kvNat args k != 0
+
+/-- `max=<n>`: `ReadFrameFromWithSize(br, n)`; `max=d`: `ReadFrameFrom(br)` (the header's default limit) -/
+def maxOf (tok : String) : Nat :=
+  if tok == "max=d" then Gen.c_defaultMaxLen else kvNat [tok] "max"
+
+def parseW (t : String) (a : List String) : Option WFrame :=
+  match t with
+  | "DATA" => some (.data (kvBool a "es") (kvHex a "data"))
+  | "HEADERS" =>
+    some (.headers (kvBool a "es") (kvBool a "eh") (if kvBool a "prio" then some (kvNat a "dep", kvNat a "w") else none) (kvHex a "frag"))
+  | "PRIORITY" => some (.priority (kvNat a "dep") (kvNat a "w"))
+  | "RST_STREAM" => some (.rstStream (kvNat a "code"))
+  | "SETTINGS" =>
+    some (.settings (kvBool a "ack") (kvNat a "ts") (kvBool a "push") (kvNat a "mcs") (kvNat a "ws") (kvNat a "fs") (kvNat a "hs"))
+  | "PUSH_PROMISE" => some (.pushPromise (kvHex a "frag"))
+  | "PING" => some (.ping (kvBool a "ack") (kvHex a "data"))
+  | "GOAWAY" => some (.goAway (kvNat a "last") (kvNat a "code") (kvHex a "debug"))
+  | "WINDOW_UPDATE" => some (.windowUpdate (kvNat a "inc"))
+  | "CONTINUATION" => some (.continuation (kvBool a "eh") (kvHex a "frag"))
+  | _ => none
+
 /-- `args` is the whole line split on spaces; `args.head!` is the operation name -/
-def step (st : State) (args : List String) : State × String := (st, "bad-op")
+def step (st : State) (args : List String) : State × String :=
+  match args with
+  | ["frame.parse", m, h] =>
+    match fromHex h with
+    | some b =>
+      let max := maxOf m
+      (st, s!"{showRead (readFrame max b)} {showPool (Pool.path max b)} :: spec={showSpec (Spec.parse max b)}")
+    | none => (st, "bad-op")
+  | ["frame.reuse", m, h] =>
+    match fromHex h with
+    | some b =>
+      let max := maxOf m
+      (st, s!"reuse={b01 (Pool.bodyFreeTwice (Pool.readEvents max b))}")
+    | none => (st, "bad-op")
+  | ["frame.spec", m, h] =>
+    match fromHex h with
+    | some b =>
+      (st, s!"{showSpec (Spec.parse (maxOf m) b)} sendwf={b01 (Spec.sendWF b)}")
+    | none => (st, "bad-op")
+  | "frame.write" :: t :: a =>
+    match parseW t a with
+    | some w =>
+      let s := kvNat a "s"
+      let fl := kvNat a "fl"
+      let bytes := write fl s (kvNat a "pad") w
+      let (fl', p) := serialize fl (kvNat a "pad") w
+      (st, s!"ok {hexOrDash bytes} :: want={showFrame ⟨w.typ, fl', s, p.length, w.want⟩}")
+    | none => (st, "bad-op")
+  | _ => (st, "bad-op")
 
 end H2.Frame.Drv
